@@ -44,8 +44,8 @@ COMPONENTS = {
              "np.random.default_rng inside strategies.py (seeded)", "os.cpu_count inside interfaces.py (drawn)"],
 }
 TIERS = {
-    "quick": {"budget_s": 90.0, "max_runs": 100000, "chunk": 1, "run_timeout": 600.0, "min_budget": 90.0, "selfcheck_runs": 3},
-    "thorough": {"budget_s": 1200.0, "max_runs": 10_000_000, "chunk": 4, "run_timeout": 600.0, "min_budget": 240.0, "selfcheck_runs": 6},
+    "quick": {"budget_s": 90.0, "max_runs": 100000, "chunk": 1, "run_timeout": 600.0, "min_budget": 90.0, "selfcheck_runs": 3, "realbin_cfgs": 6},
+    "thorough": {"budget_s": 1200.0, "max_runs": 10_000_000, "chunk": 4, "run_timeout": 600.0, "min_budget": 240.0, "selfcheck_runs": 6, "realbin_cfgs": 60},
 }
 
 ENVS: list = []
@@ -465,3 +465,67 @@ def execute(ctx: RunCtx) -> None:
 
 
 LEGS = {"pool": execute}
+
+_REALBIN: list = []
+
+
+def pre_phases(report, cfg, procs):
+    """Start the real-binary leg in a fresh interpreter (omp layer); it runs while the simulation runs."""
+    import subprocess
+    import sys
+    from pathlib import Path
+    here = Path(__file__).resolve().parent.parent
+    env = dict(os.environ, NUMBA_THREADING_LAYER="omp", PYTHONHASHSEED="0", OMP_WAIT_POLICY="PASSIVE", GOMP_SPINCOUNT="0")
+    env.pop("NUMBA_NUM_THREADS", None)
+    p = subprocess.Popen([sys.executable, "-m", "sims.realbin_c14", str(report.seed), str(cfg["realbin_cfgs"])], cwd=str(here), env=env,
+                         stdout=subprocess.PIPE, stderr=subprocess.PIPE, text=True)
+    _REALBIN.append(p)
+
+
+def post_phases(report, cfg, procs):
+    import json
+    import subprocess
+    from simkit.run import RunResult
+    for p in _REALBIN:
+        try:
+            so, se = p.communicate(timeout=3000)
+        except subprocess.TimeoutExpired:
+            p.kill()
+            report.harness_errors.append(("realbin-timeout", "C14 real-binary leg"))
+            continue
+        line = [l for l in so.splitlines() if l.startswith("REALBIN ")]
+        if p.returncode not in (0, 1) or not line:
+            report.harness_errors.append(("realbin-crashed", f"rc={p.returncode} {se[-1500:]}"))
+            continue
+        doc = json.loads(line[-1][len("REALBIN "):])
+        report.extra["real_binary_leg"] = {k: v for k, v in doc.items() if k != "mismatches"}
+        report.evaluations += doc["executions"]
+        for m in doc["mismatches"][:1]:
+            msg = f"real binary (OS-scheduled; may need repetitions to show again): {m['what']} for {m['config']}"
+            r = RunResult(verdict="violation", vclass="C14/realbin-partition-dependence", message=msg)
+            payload = {"values": m["values"], "decisions": [], "events": [], "vclass": r.vclass, "message": msg, "digest": None,
+                       "minimise": {"tests": 0}, "original_len": len(m["values"]), "no_verify": True,
+                       "sample": {"phase": "realbin", "workers": m["workers"], "threads": m["threads"], "config": m["config"]}}
+            report.violations.append((("values", "realbin", "realbin"), r, payload))
+    _REALBIN.clear()
+
+
+def _execute_realbin(ctx: RunCtx) -> None:
+    """Replay of a real-binary mismatch: same configuration, all worker/thread counts, 5 repetitions, in this process."""
+    import numba
+    from sims import realbin_c14
+    cfg = draw_config(ctx.ds, len(ENVS), quick=True)
+    numba.set_num_threads(1)
+    ref_rows = _multiset(*_rows(_compute(cfg, n_workers=1)))
+    for _ in range(5):
+        for nt in realbin_c14.THREADS:
+            numba.set_num_threads(min(nt, numba.config.NUMBA_NUM_THREADS))
+            for nw in realbin_c14.WORKERS:
+                rows = _multiset(*_rows(_compute(cfg, n_workers=nw)))
+                if rows != ref_rows:
+                    numba.set_num_threads(1)
+                    raise Violation("C14/realbin-partition-dependence", f"{nw} workers / {nt} threads returned {len(rows)} rows, 1 worker returned {len(ref_rows)} for {cfg}")
+    numba.set_num_threads(1)
+
+
+LEGS["realbin"] = _execute_realbin
